@@ -382,6 +382,9 @@ func (sc *ServerConfig) Initialize(tlsCertStore *tlscerts.Store, listenConfigCac
 		if !sc.TunnelRemoteAddress.IsValid() {
 			return errors.New("tunnelRemoteAddress is required for simple tunnel")
 		}
+		if sc.udpEnabled && sc.TunnelUDPTargetOnly && !sc.TunnelRemoteAddress.IsIP() {
+			return errors.New("tunnelUDPTargetOnly requires tunnelRemoteAddress to be an IP address")
+		}
 
 	case "http":
 		if err := sc.HTTP.Validate(); err != nil {
